@@ -176,6 +176,8 @@ class Inotify:
         # Stores the watch descriptor for a given path.
         self._wd_for_path: dict[bytes, int] = {}
         self._path_for_wd: dict[int, bytes] = {}
+        # Watched directories seen in an IN_MOVED_FROM that no IN_MOVED_TO has taken over (yet).
+        self._unsettled_moved_wds: set[int] = set()
 
         self._path = path
         # Default to all events
@@ -339,16 +341,32 @@ class Inotify:
             for wd, mask, cookie, name in Inotify._parse_event_buffer(event_buffer):
                 if wd == -1:
                     continue
-                wd_path = self._path_for_wd[wd]
+                wd_path = self._path_for_wd.get(wd)
+                if wd_path is None:
+                    # Left-over event of a watch that was removed below (directory moved out of the tree).
+                    continue
                 src_path = os.path.join(wd_path, name) if name else wd_path  # avoid trailing slash
                 inotify_event = InotifyEvent(wd, mask, cookie, name, src_path)
 
+                if inotify_event.is_move_self:
+                    # Queued by the kernel for a renamed directory after the IN_MOVED_FROM/IN_MOVED_TO
+                    # of its parent(s). If no IN_MOVED_TO inside the watched tree has taken the directory
+                    # over, it has left the tree: stop watching it and everything below it, otherwise
+                    # changes made outside the tree would be reported under the old name.
+                    if wd in self._unsettled_moved_wds:
+                        self._unsettled_moved_wds.discard(wd)
+                        self._remove_tree_watches(wd_path)
+                    continue
+
                 if inotify_event.is_moved_from:
                     self.remember_move_from_event(inotify_event)
+                    if inotify_event.src_path in self._wd_for_path:
+                        self._unsettled_moved_wds.add(self._wd_for_path[inotify_event.src_path])
                 elif inotify_event.is_moved_to:
                     move_src_path = self.source_for_move(inotify_event)
                     if move_src_path in self._wd_for_path:
                         moved_wd = self._wd_for_path[move_src_path]
+                        self._unsettled_moved_wds.discard(moved_wd)
                         del self._wd_for_path[move_src_path]
                         self._wd_for_path[inotify_event.src_path] = moved_wd
                         self._path_for_wd[moved_wd] = inotify_event.src_path
@@ -435,6 +453,16 @@ class Inotify:
                 with contextlib.suppress(OSError):
                     self._add_watch(full_path, self._event_mask)
 
+    def _remove_tree_watches(self, path: bytes) -> None:
+        """Removes the watches for the given directory and everything below it."""
+        prefix = path + os.path.sep.encode()
+        for wd, wd_path in list(self._path_for_wd.items()):
+            if wd_path == path or wd_path.startswith(prefix):
+                del self._path_for_wd[wd]
+                if self._wd_for_path.get(wd_path) == wd:
+                    del self._wd_for_path[wd_path]
+                inotify_rm_watch(self._inotify_fd, wd)
+
     def _add_watch(self, path: bytes, mask: int) -> int:
         """Adds a watch for the given path to monitor events specified by the
         mask.
@@ -444,6 +472,9 @@ class Inotify:
         :param mask:
             Event bit mask.
         """
+        if self._is_recursive:
+            # Needed to notice watched sub-directories that are moved out of the tree.
+            mask |= InotifyConstants.IN_MOVE_SELF
         wd = inotify_add_watch(self._inotify_fd, path, mask)
         if wd == -1:
             Inotify._raise_error()
